@@ -409,6 +409,19 @@ def timeAsChan (d : DS α) : DS α :=
     chan := chanT.update timeT
     time := [] }
 
+/-- `time_as_channels()` read **by index, as the source spells it** (round 5): the value in row `i`,
+    column `q` of the result is the element of C *index* `q` of the (channel, time) block of
+    observation `i` -- `self.measurements.reshape(n_obs, -1)` uses numpy's default index order `'C'`
+    whatever the memory layout (C, Fortran, strided, reversed, transposed buffer) of the array is --,
+    i.e. the measurement of channel `tacChanOf q n_tps` (the index `np.repeat(v, n_tps)` gives the
+    channel labels) at time `tacTimeOf q n_tps` (the index `np.tile(v, n_chans)` gives the time
+    labels).  The three index functions are generated from the source text (`Rsa.Gen.C11`). -/
+def tacSource (d : DS α) (i q : Nat) : Option (Cell α) :=
+  cellAt d i (Rsa.Gen.C11.tacChanOf q d.nTime) (Rsa.Gen.C11.tacTimeOf q d.nTime)
+
+/-- the column `reshape(n_obs, -1)` puts the measurement of (channel `j`, time `t`) into -/
+def tacColumn (d : DS α) (j t : Nat) : Nat := Rsa.Gen.C11.tacFlat j t d.nTime
+
 /-! #### DataFrame round trip -/
 
 /-- the descriptor columns of the frame `to_df` builds: `{**obs_descriptors, **descriptors}`,
